@@ -10,17 +10,19 @@ NOTE_C04 = ("Coq theorem C04_holds, for every plan, exit-code assignment and cho
             "sequences followed by --commands. Partial: process exit and task join are tokio/OS behaviour. Tied by real runs with dependencies made slower than dependents: every "
             "child records its own start/end, which must be ordered across positions and along every dependency edge.")
 RULE_C04 = ("random acyclic configurations (2-7 targets, nesting, prefix siblings), 1-3 commands and sequences, modes all/changed/-t/-t --deps, child run times: dependencies slower "
-            "than dependents (50%), random, zero; non-trivial = >=3 planned tasks and >=2 positions; distinct by invocation")
+            "than dependents (50%), random, zero; 10% of the generated names and one directed chain are 41-90-byte paths of multi-byte characters; directed configurations with dependents whose names merely extend "
+            "their dependency's name (core-utils uses core, t12 uses t1/src); daemon-style executables; one dependency running 21.5 s; non-trivial = >=3 planned tasks and >=2 positions; distinct by invocation")
 THEOREMS_C05 = [("Properties.C05", "C05_holds"), ("Properties.C05", "C05_completes_holds")]
 NOTE_C05 = ("Coq theorem C05_holds, for every plan and every choice list that runs to completion: every planned task has exactly one result entry, is spawned at most once, exactly once "
             "when it is defined, executable and nothing failed before it was reached, and never when undefined or not executable. Selection (changed / all / named / named+deps) composes "
             "C01, C02 and C03's models and is tied by real runs: planned pairs = commands x selected targets, groups equal to what analyze --target-groups reports at that moment, "
             "children counted per (command, target) from their own trace files.")
-RULE_C05 = ("as C04, plus checkpoints with random changed files; 10% undefined and 5% non-executable commands; non-trivial = >=3 planned tasks; distinct by invocation")
+RULE_C05 = ("as C04, plus checkpoints with random changed files; 10% undefined and 10% non-executable commands (no x bit, link to such a file, x bit without #!, #! of a missing interpreter); invocations with sequences and commands together; "
+            "every single named target with --deps on layered shapes; non-trivial = >=3 planned tasks; distinct by invocation")
 THEOREMS_C06 = [("Properties.C06", "C06_holds"), ("Properties.C06", "C06_shutdown_holds"), ("AsFound.C06", "C06_as_found_refuted")]
 NOTE_C06 = ("Coq theorem C06_holds, for every plan, exit codes and completed schedule: failed is set iff some spawned child exited non-zero or was killed by a signal (model: code >= 256, recorded as an error without a code), a reached task was not executable, or (with "
             "--fail-on-undefined) undefined; after the first failing position nothing later is spawned and those entries are skipped; success means exit 0, error with a code means "
             "exactly that code, undefined/not_executable/skipped mean no spawn; exit status 1/0 accordingly. A second theorem (C06_shutdown_holds) covers the compressor's shutdown protocol: for every thread count, client count and interleaving no "
             "send ever finds its channel closed (no internal error). Partial: real thread/task interleavings are exercised by forced delays at guarded points. Tied by real runs with failures planted at every kind of position.")
 RULE_C06 = ("as C04 with a failure planted in 75% of the runs (exit 1..255, death by SIGKILL/SIGTERM/SIGABRT - no exit code -, missing x bit, undefined with/without --fail-on-undefined, two failures); plus forced delays between the "
-            "compressor shutdown messages on groups of 3-5; non-trivial = run that failed with >=3 planned tasks; distinct by invocation")
+            "compressor shutdown messages on groups of 3-5; directed wide groups with undefined entries before defined and failing ones; the x bit of a later command's file removed or added by a task during the run; non-trivial = run that failed with >=3 planned tasks; distinct by invocation")
